@@ -175,6 +175,7 @@ var solvers = []solverSpec{
 }
 
 var seedStr = "0"
+var altSeed = "0"
 
 type solveResult struct {
 	status string // unsat, sat, unknown, timeout, error
@@ -313,6 +314,28 @@ func discharge(o *Obligation, dir string, timeoutS int, which []solverSpec) {
 		// ite(fits, old array, fresh array) base defeats quantifier instantiation, each case is easy
 		if r := splitRetry(o, txt, dir, (timeoutS+2)/3, which); r != nil {
 			final = r
+		}
+	}
+	if final == nil && !o.Cover && !o.noSplit && altSeed != "0" && altSeed != "" {
+		// one more attempt with the run's seed
+		for _, sp := range which[:1] {
+			base := sp
+			alt := solverSpec{name: base.name, args: func(f string, t int) []string {
+				as := base.args(f, t)
+				for i, a := range as {
+					if a == "smt.random_seed="+seedStr {
+						as[i] = "smt.random_seed=" + altSeed
+					} else if a == "--seed="+seedStr {
+						as[i] = "--seed=" + altSeed
+					}
+				}
+				return as
+			}}
+			r := runSolver(context.Background(), alt, file, timeoutS)
+			if r.status == "unsat" {
+				r.solver = "seed" + altSeed + ":" + r.solver
+				final = &r
+			}
 		}
 	}
 	if final == nil {
